@@ -13,6 +13,11 @@ THEOREMS = {
         "Dawgs.C18.Props.dump_all_graphs",
         "Dawgs.C18.Props.load_all_graphs",
         "Dawgs.C18.Props.manifest_metrics_exact",
+        "Dawgs.C18.Props.decode_encode_value",
+        "Dawgs.C18.Props.value_round_trip",
+        "Dawgs.C18.Props.normalize_json_equal",
+        "Dawgs.C18.Props.integral_float_becomes_int",
+        "Dawgs.C18.Props.load_iso_values",
         "Dawgs.C18.Props.int_round_trip_current",
         "Dawgs.C18.Props.int_round_trip_current_lossy",
         "Dawgs.C18.Props.int_round_trip_fixed",
@@ -97,10 +102,19 @@ CLAUSES = {
     "same number of nodes and relationships": "load_all_graphs / load_iso (GraphOk.iso is a permutation of node and relationship lists; load_iso "
         "states the lengths), manifest_metrics_exact (manifest counts = source counts), under H",
     "same kinds, same property maps (JSON-equal values), same endpoints, relationship kinds and properties under the node correspondence":
-        "load_iso / GraphOk.iso under H: kinds as the sorted kind list, properties EQUAL as elements of the abstract property type, endpoints "
-        "re-pointed through the injective id map, parallel relationships as a multiset. The JSON layer under the abstract codec: integer values - "
-        "int_round_trip_fixed (every int64 exact since 6eb981c; int_round_trip_current / _lossy document the pre-fix behaviour); strings, floats, "
-        "bools, null, nested lists / maps: TIE ONLY (values of every kind are generated each run and compared textually after the round trip)",
+        "load_iso / GraphOk.iso under H: kinds as the sorted kind list, endpoints re-pointed through the injective id map, parallel relationships "
+        "as a multiset, properties EQUAL for an abstract property type. Property VALUES of every JSON kind (Model/C18Json.lean: GVal = nil, bool, "
+        "string as code points, int64, finite float64, []any, map[string]any, any nesting; JVal = the JSON value with number literals kept as "
+        "json.Number; encodeVal = json.Marshal, decodeVal = UseNumber + jsonNumberValue of 6eb981c): load_iso_values lifts load_iso to Go values - "
+        "the loaded graph is isomorphic to the source with every value normalised, and to the source itself on the image Canon; "
+        "decode_encode_value (every value whose int64 are int64: decode(encode v) = normalizeVal v), value_round_trip (on Canon: = v, Go types "
+        "included), normalize_json_equal (the normalised value is written as the SAME JSON value and a second round trip is the identity), "
+        "integral_float_becomes_int (the one type change: a float64 that encoding/json writes as an integer literal inside int64, e.g. 3.0, comes "
+        "back as int64 3 - JSON-equal, so within the statement; float64(2^63), 1e20, -0.0, 0.1, 1e21 stay float64). int_round_trip_fixed remains for "
+        "the integer literal layer. Image: NaN / +-Inf are not values of the model - encoding/json refuses them and the dump fails without a manifest "
+        "(TIE: nandump ops); a literal beyond float64 range (the loader would keep its text) cannot be produced by a dump. TIE for the typed values: "
+        "the c18 generator writes every kind (nested, empty array / object, unicode, big ints, 0.1, 1e21, integral floats inside and beyond int64, "
+        "-0.0) as typed text and the loaded graph is compared on values AND Go types (typedJSON; model: loadText = normalizeVal on that text)",
     "every entity exactly once (underlies all of the above)": "scan_exactly_once (all batch sizes >= 1, ids distinct; short-read and truncation cases "
         "explicit), shard_partition (all shard sizes >= 1: concatenation = scan order, non-empty, <= ShardSize, all but last full, k*ShardSize, empty phase)",
     "the manifest's counts, checksums and metrics describe exactly the files written": "manifest_describes_files (per file: path, phase, digest and byte "
@@ -123,9 +137,12 @@ CLAUSES = {
     "searched only (tie)": "that the Lean transcription (Model/C18.lean) is what Dump / Load / Verify do: line diff model = implementation on every generated "
         "case (fragment boundaries and counts, schema kinds, loaded graph in creation order, verify outcomes after mutations), the observation monitor "
         "(recomputed sha256 / sizes / record counts, directory listing, isomorphism of the loaded graph); the three codecs; JSON text round trip of "
-        "strings / floats / bools / null / nesting; real database drivers (only the in-memory fake is exercised); scrub on (C19 covers it for resume)",
+        "strings (bytes of the escaping) ; real database drivers (only the in-memory fake is exercised); scrub on (C19 covers it for resume)",
     "named assumptions": "WF graphs with distinct names; source unchanged during the dump; empty target; injective destination id allocator; SHA-256 "
-        "collision free (digest abstract); encoding/json, gzip, zstd, crypto/sha256 correct; file system returns what was written",
+        "collision free (digest abstract); json_string_round_trip (escaping / unescaping of code points by encoding/json is the identity on valid "
+        "UTF-8; invalid UTF-8 becomes U+FFFD and is outside the image); float_text_round_trip (F64.round_trip: strconv parses the shortest text "
+        "json.Marshal wrote back to the same float64); object keys in encoding/json's sorted order; gzip, zstd, crypto/sha256 correct; file system "
+        "returns what was written",
 }
 
 
@@ -164,7 +181,7 @@ SPEC = {
     "lean_modules": ["Dawgs.Props.C18", "Dawgs.Props.C18Widths"],
     "regen": regen,
     "theorems_by_module": THEOREMS,
-    "gate_modules": ["Dawgs.Model.C18", "Dawgs.Spec.C18", "Dawgs.Proofs.C18", "Dawgs.Proofs.C18Metrics", "Dawgs.Proofs.C18Multi", "Dawgs.Model.C18Num", "Dawgs.Props.C18", "Dawgs.Props.C18Widths"],
+    "gate_modules": ["Dawgs.Model.C18", "Dawgs.Spec.C18", "Dawgs.Proofs.C18", "Dawgs.Proofs.C18Metrics", "Dawgs.Proofs.C18Multi", "Dawgs.Model.C18Num", "Dawgs.Model.C18Json", "Dawgs.Props.C18", "Dawgs.Props.C18Widths"],
     "suites": [
         {"name": "c18", "model_suite": "c18", "monitor_suite": None, "keep_prefix": 2, "thorough_seeds": 2},
         {"name": "obs18", "model_suite": None, "monitor_suite": "c18mon", "keep_prefix": 2, "thorough_seeds": 2, "shrink_budget": 150},
@@ -184,7 +201,7 @@ SPEC = {
     "expected_branches": ["branch.fragment_full", "branch.fragment_partial", "branch.empty_node_phase", "branch.empty_edge_phase",
                           "branch.count_multiple_of_shard", "branch.multi_graph", "verify.mismatch", "verify.ok",
                           "gen.self_loop", "gen.parallel_edge", "mutate.rewire", "mutate.setprop", "gen.graphs_restart_ids",
-                          "gen.interrupted_dumps", "scale.graphs", "scale.mutations", "idump.ok", "idump.stuck.unexpected-file", "idump.stale_checkpoint"],
+                          "gen.interrupted_dumps", "scale.graphs", "scale.mutations", "idump.ok", "idump.stuck.unexpected-file", "idump.stale_checkpoint", "nandump.rejected"],
     "trusted_base": ["encoding/json, compress/gzip, klauspost zstd, crypto/sha256 (modelled as an abstract codec with dec(enc x) = x; the JSON text "
                      "round trip of property values is checked by the tie on every run)",
                      "harness/fakedb.go: in-memory graph.Database fake interpreting the keyset criteria the retriever emits (real drivers not exercised)"],
@@ -207,13 +224,13 @@ MANIFEST = {
             "load(dump g) is isomorphic to g (kinds, properties, endpoints, parallel edges as a multiset), and Verify accepts the loaded graphs. Verify "
             "clause in one sentence: Verify succeeds exactly when the database's metrics equal the manifest's (counts and six histograms as multisets, "
             "verify_iff_metrics_equal), which isomorphism implies but which does NOT imply isomorphism - 'exactly when the graphs match' is the refuted "
-            "part of C18_full (verify_gap, c18_full_refuted). Integer property values: every int64 survives (int_round_trip_fixed). Tie every run: model "
+            "part of C18_full (verify_gap, c18_full_refuted). Property values of every JSON kind incl. nesting come back equal with their Go types, except that a float64 written as an integer literal inside int64 comes back as int64, JSON-equal (load_iso_values, value_round_trip; every int64 exact). Tie every run: model "
             "= real Dump->Load->Verify line by line on generated databases x three codecs x boundary sizes, also for interrupted+resumed dumps; a Lean "
             "monitor judges recomputed sha256 / sizes / record counts, listings and the loaded graph; width facts of the metrics tables re-extracted.",
     "note": "Partial clause: 'verification succeeds exactly when the graphs match' is false for the code (Verify compares a metrics fingerprint): "
             "refuted in Lean (c18_full_refuted, verify_gap: two self loops vs a 2-cycle) and confirmed on the real code every run; C18_partial is C18_full "
-            "with that clause replaced by verify_iff_metrics_equal. Tie only (not proved): that JSON lines + none/gzip/zstd is a codec with dec(enc x)=x, the JSON round trip of strings / floats / bools / "
-            "null / nested values, SHA-256, the real drivers (in-memory fake only). Scale boundary (65536 kind combinations): width facts in quick, a "
+            "with that clause replaced by verify_iff_metrics_equal. Tie only (not proved): that JSON lines + none/gzip/zstd is a codec with dec(enc x)=x, the byte level of JSON (string escaping, float text: "
+            "named assumptions json_string_round_trip, float_text_round_trip), SHA-256, the real drivers (in-memory fake only). Scale boundary (65536 kind combinations): width facts in quick, a "
             "65537-combination graph in thorough. No open finding: the int64-beyond-2^53 rounding of Load was fixed in /repo 6eb981c (status fixed in "
             "known_findings.json; big ints are part of every run).",
 }
